@@ -341,10 +341,105 @@ def r3_ordering(ctx):
     ctx.check(ok, "C14.R3", tp_, tp_.node, "to_pandas uses the NaN-restored values and sorts the index", "to_pandas no longer uses the NaN-restored values / a sorted index", construct="to_pandas")
 
 
+def r2b_infinite_time(ctx):
+    """'NaN / inf TIME' is one refusal in the inventory (a test on `.isna()`): it covers the infinite values only because they are mapped
+    to NaN just before - or tested on their own."""
+    ctx.rule("C14.R2b", "infinite visit times are refused (mapped to NaN before the NaN test, or tested directly)", 1)
+    f = ctx.ix.func(f"{PKG}.visit_dataframe_data_reader", "VisitDataframeDataReader._check_TIME", "C14.R2b")
+    L = Canon(f.node).lines(False, True)
+    b = unify(L, ["$1.replace([np.inf, -np.inf], np.nan, inplace=True)", "if $1.isna().any()"]) or unify(L, ["$1 = $1.replace([np.inf, -np.inf], np.nan)", "if $1.isna().any()"])
+    if b is not None and b["#0"] < b["#1"]:
+        ctx.ok("C14.R2b", f, f.node, "+inf and -inf are mapped to NaN before the NaN test", construct="infinite TIME")
+        return
+    text = "; ".join(L)
+    ctx.form("C14.R2b", f, f.node, text, set(), [("np.inf", "isinf", "isfinite")], "infinite times refused",
+             "`_check_TIME` no longer maps +/-inf to NaN before its NaN test (nor tests them): a table with an infinite visit time is accepted", construct="infinite TIME")
+
+
+# validators each concrete reader runs on every path of read() (computed from the code, confirmed by reading, frozen here)
+MUST_RUN = {
+    "VisitDataframeDataReader": ["AbstractDataframeDataReader._check_ID", "AbstractDataframeDataReader._clean_index", "AbstractDataframeDataReader._clean_numeric_data",
+                                 "VisitDataframeDataReader._check_TIME", "VisitDataframeDataReader._check_headers", "VisitDataframeDataReader._clean_dataframe"],
+    "EventDataframeDataReader": ["AbstractDataframeDataReader._check_ID", "AbstractDataframeDataReader._clean_index", "AbstractDataframeDataReader._clean_numeric_data",
+                                 "EventDataframeDataReader._clean_dataframe"],
+    "JointDataframeDataReader": ["AbstractDataframeDataReader._check_ID", "AbstractDataframeDataReader._clean_index", "AbstractDataframeDataReader._clean_numeric_data",
+                                 "EventDataframeDataReader._clean_dataframe", "JointDataframeDataReader._clean_dataframe", "VisitDataframeDataReader._check_TIME",
+                                 "VisitDataframeDataReader._check_headers", "VisitDataframeDataReader._clean_dataframe"],
+    "CovariateDataframeDataReader": ["AbstractDataframeDataReader._check_ID", "AbstractDataframeDataReader._clean_index", "AbstractDataframeDataReader._clean_numeric_data",
+                                     "CovariateDataframeDataReader._clean_dataframe_covariates", "VisitDataframeDataReader._check_TIME", "VisitDataframeDataReader._check_headers",
+                                     "VisitDataframeDataReader._clean_dataframe"],
+}
+READER_ATTRS = {"visit_reader": "VisitDataframeDataReader", "event_reader": "EventDataframeDataReader"}
+
+
+def r4_validators_run(ctx):
+    """The refusals of R2 only protect a reader if the function holding them is actually run: for every concrete reader, every path
+    through read() passes - directly or through a callee that itself always does - through each validator, before any individual is stored."""
+    ctx.rule("C14.R4", "every validator runs on every path of read(), before the individuals are built (per concrete reader)", 25)
+    ix = ctx.ix
+    for attr, cn in READER_ATTRS.items():  # the delegation table is what the constructors say
+        owners = [f for f in _reader_funcs(ctx) if f.name == "__init__" and any(isinstance(st, ast.Assign) and U(st.targets[0]) == f"self.{attr}" for st in statements(f.node))]
+        for f in owners:
+            ok = any(isinstance(st, ast.Assign) and U(st.targets[0]) == f"self.{attr}" and isinstance(st.value, ast.Call) and U(st.value.func) == cn for st in statements(f.node))
+            ctx.anchor(ok, "C14.R4", f, f.node, f"self.{attr} is a {cn}", f"type of self.{attr}", construct=f"self.{attr}")
+
+    def resolve(K, call):
+        fn = call.func
+        if isinstance(fn, ast.Attribute) and isinstance(fn.value, ast.Name) and fn.value.id in ("self", "cls"):
+            m = ix.method(K, fn.attr)
+            return [(K, m)] if m else []
+        if isinstance(fn, ast.Attribute) and isinstance(fn.value, ast.Attribute) and U(fn.value.value) == "self" and fn.value.attr in READER_ATTRS:
+            K2 = ix.find_class(READER_ATTRS[fn.value.attr])
+            m = ix.method(K2, fn.attr) if K2 else None
+            return [(K2, m)] if m else []
+        return []
+
+    memo = {}
+
+    def must(K, f, target, seen=()):
+        if f.qual == target:
+            return True
+        key = (K, f.key, target)
+        if key in memo:
+            return memo[key]
+        if (K, f.key) in seen:
+            return False
+        cfg = CFG(f.node)
+        nodes = []
+        for n, st in cfg.stmt.items():
+            if st is None:
+                continue
+            for c in header_walk(st):
+                if isinstance(c, ast.Call) and any(must(K2, g, target, seen + ((K, f.key),)) for K2, g in resolve(K, c)):
+                    nodes.append(n)
+        r = bool(nodes) and cfg.all_paths_pass(cfg.entry, nodes)
+        memo[key] = r
+        return r
+
+    for kn, targets in sorted(MUST_RUN.items()):
+        K = ix.find_class(kn)
+        if K is None:
+            raise AnalysisError("C14.R4", f"anchor vanished: {kn}")
+        rd = ix.method(K, "read")
+        cfg = CFG(rd.node)
+        loops = [n for n, st in cfg.stmt.items() if isinstance(st, ast.For) and any(isinstance(c, ast.Call) and isinstance(c.func, ast.Attribute) and c.func.attr == "_load_individuals_data" for c in ast.walk(st))]
+        for t in targets:
+            ok = must(K, rd, t)
+            ctx.check(ok, "C14.R4", rd, rd.node, f"{kn}: `{t}` runs on every path of read()",
+                      f"{kn}.read() can complete without running `{t}`: the malformed tables it refuses are accepted by this reader", construct=f"{t} runs", instance=kn)
+            # ... and before the individuals are stored
+            direct = [n for n, st in cfg.stmt.items() if st is not None and any(isinstance(c, ast.Call) and any(must(K2, g, t) for K2, g in resolve(K, c)) for c in header_walk(st))]
+            if ok and loops:
+                ctx.check(any(cfg.dominates(d, loops[0]) for d in direct), "C14.R4", rd, cfg.stmt[loops[0]], f"{kn}: `{t}` runs before the individuals are built",
+                          f"{kn}.read() builds the individuals before `{t}` has run: part of a refused table is already stored in the reader", construct=f"{t} before the individuals", instance=kn)
+
+
 def rules(ctx):
     r1_copy(ctx)
     r2_refusals(ctx)
     r3_ordering(ctx)
+    r2b_infinite_time(ctx)
+    r4_validators_run(ctx)
     ctx.trust("pandas copy(deep=True), groupby(sort=False), round, is_unique semantics; bisect")
 
 
@@ -352,6 +447,8 @@ A = "src/leaspy/io/data/abstract_dataframe_data_reader.py"
 VR = "src/leaspy/io/data/visit_dataframe_data_reader.py"
 ER = "src/leaspy/io/data/event_dataframe_data_reader.py"
 VARIANTS = [
+    V("identifier-check-not-called", A, "        self._check_ID(df[\"ID\"])\n", "", "C14.R4"),
+    V("time-check-only-for-sorted-reads", VR, "        self._check_TIME(df.set_index(\"ID\")[\"TIME\"])\n", "        if self.time_rounding_digits > 6:\n            self._check_TIME(df.set_index(\"ID\")[\"TIME\"])\n", "C14.R4"),
     V("no-copy-in-read", A, "        df = df.copy(deep=True)  # No modification on the input dataframe !\n", "", "C14.R1"),
     V("unique-before-rounding", A, "        df = self._set_index(df)\n        if not df.index.is_unique:", "        dup = not df.set_index([\"ID\", \"TIME\"]).index.is_unique\n        df = self._set_index(df)\n        if dup:", "C14.R3"),
     V("no-rounding", VR, "        df[\"TIME\"] = round(\n            df[\"TIME\"], self.time_rounding_digits\n        )  # avoid missing duplicates due to rounding errors\n", "", "C14.R3"),
